@@ -265,7 +265,13 @@ def gen(rng: random.Random, tier: str):
             leaves = [L("l%02d" % j, **({"age": age} if (i, j) == (35, 27) else {})) for j in range(29)]
             if i == 35:
                 leaves = leaves[:28] + ([L(last_leaf)] if last_leaf else []) + ([L(extra)] if extra else [])
+            if i == 0:
+                # ... and a directory next to siblings named like itself plus a character that sorts BEFORE the separator
+                # ('.', ' ', '(', '+'), with differences of its own below it: string order of the paths is not pre-order
+                leaves = leaves + [L("yy0" if age == 1 else "zz0")]
             kids.append(L("n%02d" % i, *leaves))
+            if i == 0:
+                kids += [L("n00.u", L("q", age=age)), L("n00 (l)"), L("n00+e", L("w"))]
         return L("r", *kids)
     for only in (True, False):
         cases.append(mk(big("l28", None, 1), big(None, "zz", 2), "/", only, ["age"], ("corpus", "large", "only" if only else "all")))
@@ -381,13 +387,18 @@ def run(d):
         a = build(prev["t1"], d["sep"])
         b = build(prev["t2"], d["sep"])
         try:
-            get_tree_diff(a, b, only_diff=d["only_diff"],
-                          attr_list=list(d["attr_list"]) if prev.get("same_attr_list", True) else ["age"])
-            # once more with a list object the caller keeps: whatever the call does to it must not matter later
+            # with a list object the caller keeps: whatever the call does to it must not matter later
             _kept = list(d["attr_list"]) + ["zz_absent"]
             get_tree_diff(a, b, only_diff=d["only_diff"], attr_list=_kept)
             if _kept != list(d["attr_list"]) + ["zz_absent"]:
                 _ALIASED.append(list(_kept))
+        except Exception:
+            pass
+        try:
+            # ... and, LAST before the edit, the very request that is compared later (same trees, same options, same
+            # attr_list): what it remembers about the two trees is from before the edit
+            get_tree_diff(a, b, only_diff=d["only_diff"],
+                          attr_list=list(d["attr_list"]) if prev.get("same_attr_list", True) else ["age"])
         except Exception:
             pass
         for tree, spec in ((a, d["t1"]), (b, d["t2"])):
